@@ -106,6 +106,27 @@ Theorem C17_le_encode_decode :
 Proof. intros. split; [apply le_encode_decode; assumption|apply le_decode_range; assumption]. Qed.
 Print Assumptions C17_le_encode_decode.
 
+(** Statelessness of the model: one PRF object is (per-input XOF, keylen, bound); the result of a call
+    after ANY history of earlier calls on the same object is the plain function value, so two
+    histories ending in the same call give the same result.  (Definitional in the model; the check
+    searches the implementation for history dependence with call sequences on one object.) *)
+Theorem C17_prf_history_independent :
+  forall (S : Type) (xofs : S -> nat -> list Z) (keylen bound : Z) (h1 h2 : list (S * nat)) (s : S) (n : nat),
+    last (prf_history S xofs keylen bound (h1 ++ [(s, n)])) [] = prf_list (xofs s) keylen bound n /\
+    last (prf_history S xofs keylen bound (h1 ++ [(s, n)])) [] =
+    last (prf_history S xofs keylen bound (h2 ++ [(s, n)])) [].
+Proof. exact prf_history_independent. Qed.
+Print Assumptions C17_prf_history_independent.
+
+(** all results obtained for one input in a history agree on their common indices *)
+Theorem C17_prf_history_prefix_family :
+  forall (S : Type) (xofs : S -> nat -> list Z) (keylen bound : Z) (h : list (S * nat)) (s : S) (n n' i : nat),
+    (forall a b, (a <= b)%nat -> firstn a (xofs s b) = xofs s a) ->
+    In (s, n) h -> In (s, n') h -> (i < n)%nat -> (i < n')%nat ->
+    nth i (prf_list (xofs s) keylen bound n) 0 = nth i (prf_list (xofs s) keylen bound n') 0.
+Proof. exact prf_history_prefix_family. Qed.
+Print Assumptions C17_prf_history_prefix_family.
+
 (** Non-vacuity. An XOF satisfying [prefix]: the first k bytes of a fixed infinite stream. *)
 Definition demo_xof (k : nat) : list Z := map (fun i => (Z.of_nat i * 37 + 11) mod 256) (seq 0 k).
 
